@@ -830,7 +830,7 @@ pub open spec fn prune_exact(old: World, fin: World, dir: PathV, cap: nat, recs:
 def weave_cache_dir_head(u):
     """validate_file_name, ensure_directory and the CacheDir trait's lookups."""
     u.text('pub mod cache_dir {\n' + MOD_HEAD + 'use crate::benign_error::is_absent_file_error;\nuse crate::raw_cache;\n'
-           'use crate::trigger::PeriodicTrigger;\nuse crate::std::fs::File;\n')
+           'use crate::trigger::PeriodicTrigger;\nuse crate::std::fs::File;\nuse crate::std::fs::DirEntry;\nuse crate::std::time::Duration;\n')
     INV = ('C02 C18:valid-on-every-exit', 'final(w).inv()')
     BOOK = ('', 'final(w).kept(*old(w)) && final(w).listed == old(w).listed')
 
@@ -862,6 +862,98 @@ def weave_cache_dir_head(u):
                   '&& (forall|d: PathV| #[trigger] old(w).dirs.contains(d) ==> final(w).dirs.contains(d)) '
                   '&& (forall|d: PathV| #[trigger] final(w).dirs.contains(d) ==> old(w).dirs.contains(d) || d.is_prefix_of(pv(path)))'),
                  ('C18:error-is-a-real-fault', 'r.is_err() ==> final(w).hard_faults > old(w).hard_faults')])
+
+    # ---- MAX_TEMP_FILE_AGE and cleanup_temporary_directory ---------------------------------
+    from weave import Repl
+    c = u.item('src/cache_dir.rs', ['const MAX_TEMP_FILE_AGE'])
+    c.drop_attrs()     # #[cfg(not(test))]: the extractor already selected the non-test definition
+    c.insert_before_tok(c.item.lo, 'exec ')
+    eq, _ = c._find('=', 0)
+    c.repls.append(Repl(c.ct[eq][2], c.ct[eq][3], '\n    ensures MAX_TEMP_FILE_AGE.secs == 3600   // @L C17 C02:temporary-file-age-limit-is-one-hour\n{', 'T8-const-block'))
+    c.repls.append(Repl(c.ct[c.hi][2], c.ct[c.hi][3], '}', 'T8-const-block'))
+    u.text('''
+/// The age limit in ns (one hour: proved from the crate's own constant above).
+pub open spec fn temp_age_ns() -> int {
+    3600 * ns_per_sec()
+}
+
+/// What cleaning `.kismet_temp` may change, on every exit (C17 C02): only files directly inside `tdir`
+/// disappear, and only those last modified strictly more than the age limit before this run's clock reading.
+pub open spec fn temp_frame(old: World, fin: World, tdir: PathV, reading: int) -> bool {
+    &&& fin.dirs == old.dirs
+    &&& fin.inodes == old.inodes
+    &&& forall|p: PathV| #[trigger] fin.files.contains_key(p) ==> old.files.contains_key(p) && fin.files[p] == old.files[p]
+    &&& forall|p: PathV| old.files.contains_key(p) && !(#[trigger] fin.files.contains_key(p)) ==> p.len() > 0 && parent(p) == tdir && old.inode_at(p).mtime + temp_age_ns() < reading
+}
+
+pub proof fn lemma_temp_frame_step(old: World, a: World, b: World, tdir: PathV, reading: int, n: Seq<u8>)
+    requires
+        temp_frame(old, a, tdir, reading),
+        b.dirs == a.dirs,
+        b.inodes == a.inodes,
+        b.files == a.files || (b.files == a.files.remove(child(tdir, n)) && a.files.contains_key(child(tdir, n)) && a.inode_at(child(tdir, n)).mtime + temp_age_ns() < reading),
+    ensures
+        temp_frame(old, b, tdir, reading),
+{
+    lemma_child(tdir, n);
+    assert forall|p: PathV| old.files.contains_key(p) && !(#[trigger] b.files.contains_key(p)) implies p.len() > 0 && parent(p) == tdir && old.inode_at(p).mtime + temp_age_ns() < reading by {
+        if a.files.contains_key(p) {
+            assert(p == child(tdir, n));
+            assert(a.files[p] == old.files[p]);
+        }
+    }
+}
+
+pub open spec fn is_temp_dir_of(w: World, tdir: PathV) -> bool {
+    &&& tdir.len() > 0
+    &&& base_name(tdir) == temp_name()
+    &&& w.cache_dirs.contains(parent(tdir))
+    &&& forall|n: Seq<u8>| !w.under_ro(#[trigger] child(tdir, n))
+}
+''')
+    cl = u.under_contract(u.item('src/cache_dir.rs', ['fn cleanup_temporary_directory']), ['C02', 'C17', 'C05', 'C06', 'C18', 'C15'])
+    cl.air = r'cache_dir::cleanup_temporary_directory(::handle)?'
+    cl.add_param(W)
+    cl.add_arg('std :: time :: SystemTime :: now', TW)
+    cl.add_arg('std :: fs :: read_dir', TW)
+    cl.add_arg('dirent . metadata', TW)
+    cl.add_arg('std :: fs :: remove_file', TW)
+    HANDLE_CONTRACT = (
+        '\n            requires\n                old(w).inv(),\n                dirent.dir() == pbv(*old(temp)),\n'
+        '                is_temp_dir_of(*old(w), dirent.dir()),\n                single_component(dirent.name()),\n'
+        '            ensures\n                final(w).inv(),\n                final(w).kept(*old(w)) && final(w).now == old(w).now && final(w).listed == old(w).listed,\n'
+        '                pbv(*final(temp)) == pbv(*old(temp)),\n'
+        '                final(w).steps <= old(w).steps + 2 && final(w).opens == old(w).opens && final(w).published == old(w).published,\n'
+        '                final(w).dirs == old(w).dirs && final(w).inodes == old(w).inodes,\n'
+        '                final(w).files == old(w).files || (final(w).files == old(w).files.remove(child(dirent.dir(), dirent.name())) '
+        '&& old(w).files.contains_key(child(dirent.dir(), dirent.name())) '
+        '&& old(w).inode_at(child(dirent.dir(), dirent.name())).mtime < threshold.ns()),   // @L C17 C02:only-stale-temporary-files-are-removed\n')
+    cl.replace('let mut handle = | | -> Result < ( ) >',
+               'fn handle(dirent: &DirEntry, temp: &mut PathBuf, threshold: std::time::SystemTime, %s) -> (r: Result<()>)%s' % (W, HANDLE_CONTRACT),
+               'T4-closure-lift')
+    cl.replace('handle ( )', 'handle(&dirent, &mut temp, threshold, Tracked(w))', 'T4-closure-call')
+    cl.insert_before('let _ = handle', 'let ghost wb = *w;\n        ')
+    cl.insert_after('let _ = handle ( ) ;', '\n        proof { lemma_temp_frame_step(*old(w), wb, *w, tdir, reading, dirent.name()); }')
+    cl.insert_after('let metadata = dirent . metadata ( ) ? ;', '\n            broadcast use group_asref;\n            proof { lemma_child(dirent.dir(), dirent.name()); }')
+    cl.desugar_for(0, next_args=TW,
+                   after_init='let ghost tdir = pbv(temp); let ghost reading = w.now;')
+    cl.loop_contract(0, invariant=[
+        ('', 'old(w).inv() && w.inv() && w.kept(*old(w)) && kw_it.dir() == tdir && pbv(temp) == tdir && is_temp_dir_of(*w, tdir) && w.now == reading'),
+        ('', 'threshold.ns() == reading - temp_age_ns()'),
+        ('C17 C02:only-stale-temporary-files-are-removed', 'temp_frame(*old(w), *w, tdir, reading)'),
+        ('C06:three-calls-per-directory-item', 'w.steps <= old(w).steps + 2 + 3 * (w.listed - old(w).listed) && w.opens == old(w).opens + 1 && w.published == old(w).published'),
+    ], invariant_except_break=[('C06:three-calls-per-directory-item', 'w.steps <= old(w).steps + 1 + 3 * (w.listed - old(w).listed)')],
+        decreases='kw_it.rem().len()')
+    cl.contract(
+        requires=[('', 'old(w).inv()'),
+                  ('C02 C15 C16:cleanup-runs-on-the-temp-subdirectory-of-a-configured-cache-directory', 'is_temp_dir_of(*old(w), cowv(temp_dir))')],
+        ensures=[
+            INV, ('', 'final(w).kept(*old(w))'),
+            ('C17 C02:only-stale-temporary-files-are-removed', 'temp_frame(*old(w), *final(w), cowv(temp_dir), final(w).now)'),
+            ('C06:three-calls-per-directory-item', 'final(w).steps <= old(w).steps + 2 + 3 * (final(w).listed - old(w).listed) && final(w).opens <= old(w).opens + 1 && final(w).published == old(w).published'),
+            ('C05 C18:error-is-a-real-fault', 'r.is_err() ==> final(w).hard_faults > old(w).hard_faults'),
+        ])
+    u.dropped.append('cache_dir.rs: #[cfg(not(test))] on MAX_TEMP_FILE_AGE (the #[cfg(test)] alternative is not compiled into the library)')
 
     # ---- trait CacheDir ----------------------------------------------------------------------
     t = u.item('src/cache_dir.rs', ['trait CacheDir'])
